@@ -37,4 +37,5 @@ def run(ctx):
     lib_kind.py_lints(ctx, py, mods=("trees", "tables", "util"), only=ps)
     lib_kind.py_copy_state(ctx, py, [("trees", "TreeSequence"), ("tables", "BaseTable"), ("tables", "TableCollection"), ("trees", "Tree"), ("genotypes", "Variant")])
     lib_kind.dict_atomic(ctx, P)
+    lib_kind.length_guard(ctx, P, lambda k, f: f.startswith("write_") or f.startswith("parse_") or f.startswith("TableCollection_"), tus=["module"])
     lib_mem.c_lints(ctx, ctx.program(), scopes.lib_scope("C05"))
